@@ -5,9 +5,40 @@ emit a `go build -overlay` JSON into a scratch directory. Nothing in /repo is mo
 Every rewrite must match exactly the stated number of sites, otherwise this exits 2 (never a
 verdict). The identity of each seam when its hook is nil is documented in DESIGN.md section 4.
 """
-import json, os, re, sys
+import json, os, re, subprocess, sys
 
 REPO = os.environ.get("VERIF_REPO", "/repo")
+
+
+R0_TAIL = '''
+// verifTimerSalt and verifTimerSeq replace the per-thread random tie-break of same-instant
+// synctest timers by a value the simulation harness owns (/verif/sim/kernel/timerseam.go).
+//
+//go:linkname verifTimerSalt
+var verifTimerSalt uint32
+
+//go:linkname verifTimerSeq
+var verifTimerSeq uint32
+
+func verifTimerRand() uint32 {
+	verifTimerSeq++
+	x := verifTimerSeq
+	if verifTimerSalt == 0 {
+		return x
+	}
+	x ^= verifTimerSalt
+	x *= 0x9e3779b1
+	x ^= x >> 15
+	x *= 0x85ebca77
+	x ^= x >> 13
+	return x
+}
+'''
+
+
+def r0(src):  # GOROOT/src/runtime/time.go: tie-break of same-instant fake timers owned by the kernel
+    old = "\t\t\tt.rand = cheaprand()\n"
+    return src.replace(old, "\t\t\tt.rand = verifTimerRand()\n") + R0_TAIL, src.count(old), 1
 
 
 def r1(src):  # h2/h2.go: tls.Dial -> verifDial (falls back to tls.Dial when VerifDial is nil)
@@ -21,9 +52,9 @@ def r2(src):  # h2/relay.go: map iteration order of outputBuffers becomes a tape
     return out, n, 2
 
 
-def r3(src):  # trafficshape/bucket.go: busy-wait loops in FillThrottle{,Locked} sleep 1ms of simulated time
-    # insert verifSpinWait() as the first statement of every condition-less `for {` that lives in
-    # a function whose name starts with FillThrottle
+def r3(src):  # trafficshape/bucket.go: the busy-wait of FillThrottle{,Locked} sleeps 1ms of simulated time per spin
+    # append verifSpinWait() to the end of the body of the condition-less `for {` loop of every
+    # function whose name starts with FillThrottle: only the "bucket full, try again" path reaches it
     out, n, pos = [], 0, 0
     for m in re.finditer(r"func \(b \*Bucket\) (FillThrottle\w*)\(", src):
         start = m.start()
@@ -31,10 +62,13 @@ def r3(src):  # trafficshape/bucket.go: busy-wait loops in FillThrottle{,Locked}
         if nxt < 0:
             nxt = len(src)
         body = src[start:nxt]
-        body2, k = re.subn(r"\bfor \{\n", "for {\n\t\tverifSpinWait()\n", body)
-        n += k
+        # the loop is the last block of the function: "\t}\n}\n" closes loop and function
+        idx = body.rfind("\n\t}\n}")
+        if idx >= 0 and "for {" in body:
+            body = body[:idx] + "\n\t\tverifSpinWait()" + body[idx:]
+            n += 1
         out.append(src[pos:start])
-        out.append(body2)
+        out.append(body)
         pos = nxt
     out.append(src[pos:])
     return "".join(out), n, 2
@@ -55,12 +89,26 @@ def r5(src):  # mitm/mitm.go: yield points inside cert(): after the cache miss a
     return out, n, 2
 
 
+def r6(src):  # trafficshape/listener.go: per-connection buckets are created in sorted regex order
+    old = "\tfor regex, shape := range l.Shapes.M {\n"
+    new = "\tfor _, regex := range verifKeys(l.Shapes.M) {\n\t\tshape := l.Shapes.M[regex]\n"
+    return src.replace(old, new), src.count(old), 1
+
+
+def r7(src):  # trafficshape/conn.go: per-connection buckets are stopped in sorted regex order
+    old = "\tfor _, bs := range c.LocalBuckets {\n"
+    new = "\tfor _, verifK := range verifKeys(c.LocalBuckets) {\n\t\tbs := c.LocalBuckets[verifK]\n"
+    return src.replace(old, new), src.count(old), 1
+
+
 REWRITES = [
     ("R1", "h2/h2.go", r1),
     ("R2", "h2/relay.go", r2),
     ("R3", "trafficshape/bucket.go", r3),
     ("R4", "proxy.go", r4),
     ("R5", "mitm/mitm.go", r5),
+    ("R6", "trafficshape/listener.go", r6),
+    ("R7", "trafficshape/conn.go", r7),
 ]
 
 
@@ -83,6 +131,20 @@ def main():
             sys.stderr.write("instrument: %s matched %d sites in %s, expected %d\n" % (rid, n, rel, want))
             sys.exit(2)
         dst = os.path.join(outdir, rel.replace("/", "__"))
+        open(dst, "w").write(new)
+        replace[path] = dst
+    if not only or "R0" in only:
+        goroot = subprocess.run([os.environ.get("VERIF_GO", "go1.26.8"), "env", "GOROOT"], capture_output=True, text=True,
+                                env=dict(os.environ, GOTOOLCHAIN="local")).stdout.strip()
+        path = os.path.join(goroot, "src", "runtime", "time.go")
+        if not os.path.exists(path):
+            sys.stderr.write("instrument: R0 cannot find %s\n" % path)
+            sys.exit(2)
+        new, n, want = r0(open(path).read())
+        if n != want:
+            sys.stderr.write("instrument: R0 matched %d sites in %s, expected %d\n" % (n, path, want))
+            sys.exit(2)
+        dst = os.path.join(outdir, "goroot__runtime__time.go")
         open(dst, "w").write(new)
         replace[path] = dst
     ov = os.path.join(outdir, "overlay.json")
